@@ -153,6 +153,11 @@ func (h *Hub) connectFoundService(remoteService *api.ServiceDetails, host, port,
 		return nil
 	}
 
+	// do not initiate connections once the hub is shut down
+	if h.checkIsShutdown() {
+		return nil
+	}
+
 	logging.Log().Debugf("initiating connection to %s at %s:%s%s", remoteService.SKI(), host, port, path)
 
 	dialer := &websocket.Dialer{
@@ -275,7 +280,7 @@ func (h *Hub) sendWSCloseMessage(conn *websocket.Conn) {
 
 // coordinate connection initiation attempts to a remove service
 func (h *Hub) coordinateConnectionInitations(ski string, entry *api.MdnsEntry) {
-	if h.isConnectionAttemptRunning(ski) {
+	if h.isConnectionAttemptRunning(ski) || h.checkIsShutdown() {
 		return
 	}
 
@@ -305,6 +310,11 @@ func (h *Hub) coordinateConnectionInitations(ski string, entry *api.MdnsEntry) {
 // when initating a pairing process
 func (h *Hub) prepareConnectionInitation(ski string, counter int, entry *api.MdnsEntry) {
 	h.setConnectionAttemptRunning(ski, false)
+
+	// a delayed connection attempt is irrelevant once the hub is shut down
+	if h.checkIsShutdown() {
+		return
+	}
 
 	// check if the current counter is still the same, otherwise this counter is irrelevant
 	currentCounter, exists := h.getCurrentConnectionAttemptCounter(ski)
